@@ -96,23 +96,29 @@ func (m *txSortedMap) Forward(threshold uint64) types.Transactions {
 	return removed
 }
 
-// try to replace a big nonce tx to a small nonce tx
-func (m *txSortedMap) TryReplace(tx *types.Transaction) bool {
+// try to replace a big nonce tx to a small nonce tx; the transaction that had to make room is returned
+// so that the caller can forget it as well
+func (m *txSortedMap) TryReplace(tx *types.Transaction) (bool, *types.Transaction) {
 	if m.index.Len() <= 0 {
-		return false
+		return false, nil
 	}
 
 	maxNonce := m.MaxNonce()
 	if maxNonce <= tx.Nonce() {
-		return false
+		return false, nil
+	}
+	if _, exist := m.items[tx.Nonce()]; exist {
+		// nothing can be added: do not drop anything either
+		return false, nil
 	}
 
 	// get a minor nonce, delete old one and add minor.
+	evicted := m.items[maxNonce]
 	m.Remove(maxNonce)
 	if err := m.Add(tx); err != nil {
-		return false
+		return false, evicted
 	}
-	return true
+	return true, evicted
 }
 
 // return max nonce in txSortedMap, call from empty m will cause a panic.
